@@ -18,7 +18,7 @@ import (
 	"github.com/flamego/flamego/verifharness/internal/rt"
 )
 
-const rule = "case = a history: 0..5 registrations the statement obliges the router to accept, then one candidate made by a named operator (valid, break-grammar, unknown-method, repeat, repeat-short-form, plain-after-optional, optional-after-plain, dup-bind-across, dup-bind-inside, inner-optional, inner-empty, second-mid-matchall, matchall-clash, bad-expression, single-optional, metachar-literal), then requests built from instances of every accepted route. " +
+const rule = "case = a history: 0..5 registrations the statement obliges the router to accept, then one candidate made by a named operator (valid, break-grammar, unknown-method, routes-list = declared through Routes(path, list) with well- and ill-formed comma lists, repeat, repeat-short-form, plain-after-optional, optional-after-plain, dup-bind-across, dup-bind-inside, inner-optional, inner-empty, second-mid-matchall, matchall-clash, bad-expression, single-optional, metachar-literal), then requests built from instances of every accepted route, then optionally 1..2 further well-formed registrations that conflict with nothing and requests for them and for the earlier routes. " +
 	"Oracle: the registration validity model (MUST_REJECT / MUST_ACCEPT / EITHER from the clauses of C08) against 'did Flame.Route panic' and 'did route.AddRoute fail'; accepted routes must serve all their instances (long and short form) through a route that admits them - the reference matcher's winner; no request may panic whatever happened before. " +
 	"non-trivial = a MUST_REJECT candidate after >=1 accepted route, or an accepted candidate that is optional, match-all, has a user group or a metacharacter literal; distinct by case text"
 
@@ -35,12 +35,57 @@ type Case struct {
 	Op     string   `json:"operator"`
 	Final  rt.Reg   `json:"candidate"`
 	Reqs   []rt.Req `json:"requests"`
+	// Via: "" = Route(method, path); "routes" = Routes(path, list) with the
+	// candidate's method field holding the comma list.
+	Via string `json:"via,omitempty"`
+	// After are well-formed registrations made after the candidate (whatever
+	// became of it); AfterReqs are requests built from their instances.
+	After     []rt.Reg `json:"registered_afterwards,omitempty"`
+	AfterReqs []rt.Req `json:"requests_afterwards,omitempty"`
+}
+
+// candidateMethods interprets the method field of the candidate: the known
+// methods it names, whether something in it is not a method at all, and
+// whether the spelling is one the statement does not classify (lower / mixed
+// case, blanks around a name given to Route, a method named twice in a list).
+func candidateMethods(c Case) (methods []string, unknown, spelling bool) {
+	if c.Via == "routes" {
+		seen := map[string]bool{}
+		for _, item := range strings.Split(c.Final.M, ",") {
+			name := strings.TrimSpace(item)
+			ms := model.ExpandMethod(name)
+			if ms == nil {
+				unknown = true // "", "GET POST", ... are not methods
+				continue
+			}
+			if name != strings.ToUpper(name) {
+				spelling = true
+			}
+			for _, m := range ms {
+				if seen[m] {
+					// a method named twice ("GET,*"): a second registration of the same
+					// route, or a list to be read as a set - not classified
+					spelling = true
+					continue
+				}
+				seen[m] = true
+				methods = append(methods, m)
+			}
+		}
+		return methods, unknown, spelling
+	}
+	name := strings.TrimSpace(c.Final.M)
+	ms := model.ExpandMethod(name)
+	if ms == nil {
+		return nil, true, false
+	}
+	return ms, false, c.Final.M != strings.ToUpper(name)
 }
 
 // verdictFor classifies the candidate given the prefix.
 func verdictFor(c Case) (model.Verdict, string) {
-	methods := model.ExpandMethod(c.Final.M)
-	if methods == nil {
+	methods, unknown, spelling := candidateMethods(c)
+	if unknown {
 		return model.MustReject, "unknown-method"
 	}
 	d, ok := model.ParseRef(c.Final.R)
@@ -64,6 +109,11 @@ func verdictFor(c Case) (model.Verdict, string) {
 			worst, why = v, w
 		}
 	}
+	if spelling && worst == model.MustAccept {
+		// "get", "Get" or "GET " given to Route: whether that is the method GET or
+		// an unknown method is not said by the statement
+		return model.Either, "method-spelling"
+	}
 	return worst, why
 }
 
@@ -80,7 +130,12 @@ func checkCase(c Case) evid.Outcome {
 	if perr != nil {
 		return evid.Fail("prefix-rejected:"+classify(perr), "registration #%d %s %q of the accepted prefix panicked although the statement obliges the router to accept it: %v", errAt, c.Prefix[errAt].M, c.Prefix[errAt].R, perr)
 	}
-	ferr := app.Register(len(c.Prefix), c.Final)
+	var ferr interface{}
+	if c.Via == "routes" {
+		ferr = app.RegisterRoutes(len(c.Prefix), c.Final)
+	} else {
+		ferr = app.Register(len(c.Prefix), c.Final)
+	}
 	switch verdict {
 	case model.MustReject:
 		if ferr == nil {
@@ -93,13 +148,15 @@ func checkCase(c Case) evid.Outcome {
 	}
 
 	// ---- tree level (grammatical text only; methods do not exist there)
-	if d, ok := model.ParseRef(c.Final.R); ok && model.ExpandMethod(c.Final.M) != nil {
+	if d, ok := model.ParseRef(c.Final.R); ok && c.Via == "" && model.ExpandMethod(c.Final.M) != nil {
 		_ = d
 		terr := treeRegister(c)
 		switch verdict {
 		case model.MustReject:
 			if terr == nil {
-				return evid.Fail("tree-accepted-invalid:"+why, "route.AddRoute accepted %q (%s) after %s", c.Final.R, why, show(c.Prefix))
+				// the statement speaks about registration: where the router refuses
+				// the route (checked above) is its own business
+				out.Classes = append(out.Classes, "tree-accepts-what-the-router-refuses")
 			}
 		case model.MustAccept:
 			if terr != nil {
@@ -109,10 +166,13 @@ func checkCase(c Case) evid.Outcome {
 	}
 
 	// ---- requests: never a panic; accepted routes are reachable by priority
+	candMethods, _, _ := candidateMethods(c)
 	all := append([]rt.Reg(nil), c.Prefix...)
 	strong := false
 	if verdict == model.MustAccept {
-		all = append(all, c.Final)
+		for _, m := range candMethods {
+			all = append(all, rt.Reg{M: m, R: c.Final.R})
+		}
 		strong = true
 	} else if verdict == model.MustReject && ferr != nil {
 		// a rejected registration may leave empty tree nodes behind, and a
@@ -120,7 +180,7 @@ func checkCase(c Case) evid.Outcome {
 		// trees before it failed: only "no panic" and "served by a route that
 		// admits the path" are required, the candidate counting as such a route
 		strong = false
-		if d, ok := model.ParseRef(c.Final.R); ok && model.ExpandMethod(c.Final.M) != nil {
+		if d, ok := model.ParseRef(c.Final.R); ok && candMethods != nil {
 			if _, err := model.Compile(d, len(c.Prefix)); err == nil {
 				// ... but only in the method trees where the candidate itself is
 				// acceptable: where it must be rejected it must never serve
@@ -130,7 +190,7 @@ func checkCase(c Case) evid.Outcome {
 						g.Add(m, rt.Deriv(p.R))
 					}
 				}
-				for _, m := range model.ExpandMethod(c.Final.M) {
+				for _, m := range candMethods {
 					if v, _ := g.Check(m, d); v != model.MustReject {
 						all = append(all, rt.Reg{M: m, R: c.Final.R})
 					}
@@ -157,11 +217,17 @@ func checkCase(c Case) evid.Outcome {
 			if want.Found != (hit.Handler >= 0) {
 				return evid.Fail("reachability", "%s %q: reference matcher found=%v (route %s), ServeHTTP ran handler #%d; history %s + %s %q", q.M, q.P, want.Found, canon(want), hit.Handler, show(c.Prefix), c.Final.M, c.Final.R)
 			}
-			if want.Found && hit.Handler != want.Route.Index {
+			if wi := want.Route; want.Found && hit.Handler != minInt(wi.Index, len(c.Prefix)) {
 				return evid.Fail("reachability-winner", "%s %q: served by registration #%d, documented priority gives #%d %q", q.M, q.P, hit.Handler, want.Route.Index, want.Route.Canon)
 			}
-		} else if hit.Handler >= 0 {
-			// weak form: whoever served it must admit it
+		} else if hit.Handler < 0 {
+			// weak form, first half: a rejected registration takes nothing away -
+			// what a route of the accepted prefix admits is still served
+			if adm := model.Admitting(rt.Compiled(c.Prefix, q.M), q.P, nil, nil); len(adm) > 0 {
+				return evid.Fail("prefix-route-lost", "%s %q is admitted by %q of the accepted prefix but nothing serves it after the rejected registration %s %q (%s); history %s", q.M, q.P, adm[0].Route.Canon, c.Final.M, c.Final.R, why, show(c.Prefix))
+			}
+		} else {
+			// weak form, second half: whoever served it must admit it
 			ok := false
 			for _, a := range model.Admitting(routes, q.P, nil, nil) {
 				idx := a.Route.Index
@@ -179,6 +245,50 @@ func checkCase(c Case) evid.Outcome {
 				return evid.Fail("served-by-non-admitting", "%s %q served by registration #%d which does not admit it", q.M, q.P, hit.Handler)
 			}
 		}
+	}
+
+	// ---- registrations made afterwards: whatever became of the candidate, a
+	// well-formed route that conflicts with nothing is accepted and reachable
+	if len(c.After) > 0 && verdict != model.Either {
+		n, nc := len(c.Prefix), len(all)-len(c.Prefix)
+		for k, g := range c.After {
+			if err := app.Register(n+1+k, g); err != nil {
+				return evid.Fail("later-registration-rejected", "registration %s %q is well-formed and conflicts with nothing, but after the history %s + %s %q (%s) Flame panicked: %v", g.M, g.R, show(c.Prefix), c.Final.M, c.Final.R, verdict, err)
+			}
+		}
+		later := append(append([]rt.Reg(nil), all...), c.After...)
+		handlerOf := func(i int) int {
+			switch {
+			case i < n:
+				return i
+			case i < n+nc:
+				return n
+			}
+			return n + 1 + (i - n - nc)
+		}
+		for _, q := range c.AfterReqs {
+			hit := app.Serve(q)
+			if hit.Panic != nil {
+				return evid.Fail("request-panic", "request %s %q panicked after the history %s + %s %q + %s: %v", q.M, q.P, show(c.Prefix), c.Final.M, c.Final.R, show(c.After), hit.Panic)
+			}
+			adm := model.Admitting(rt.Compiled(later, q.M), q.P, nil, nil)
+			if hit.Handler < 0 {
+				if len(adm) > 0 {
+					return evid.Fail("later-route-unreachable", "%s %q is admitted by %q, registered after the candidate %s %q (%s), but nothing serves it", q.M, q.P, adm[0].Route.Canon, c.Final.M, c.Final.R, verdict)
+				}
+				continue
+			}
+			ok := false
+			for _, a := range adm {
+				if handlerOf(a.Route.Index) == hit.Handler {
+					ok = true
+				}
+			}
+			if !ok {
+				return evid.Fail("served-by-non-admitting", "%s %q served by registration #%d which does not admit it (after later registrations %s)", q.M, q.P, hit.Handler, show(c.After))
+			}
+		}
+		out.Classes = append(out.Classes, "registered-afterwards")
 	}
 
 	switch {
@@ -207,6 +317,13 @@ func checkCase(c Case) evid.Outcome {
 		}
 	}
 	return out
+}
+
+func minInt(a, b int) int {
+	if a < b {
+		return a
+	}
+	return b
 }
 
 func canon(r model.Result) string {
@@ -280,7 +397,7 @@ func show(regs []rt.Reg) string {
 // ---- generator -----------------------------------------------------------------
 
 var ops = []string{
-	"valid", "valid", "valid", "break-grammar", "unknown-method", "repeat", "repeat-short-form", "plain-after-optional",
+	"valid", "valid", "valid", "break-grammar", "unknown-method", "routes-list", "repeat", "repeat-short-form", "plain-after-optional",
 	"optional-after-plain", "dup-bind-across", "dup-bind-inside", "inner-optional", "inner-empty", "second-mid-matchall",
 	"matchall-clash", "bad-expression", "single-optional", "metachar-literal", "unclassified", "shared-mid-matchall",
 }
@@ -292,7 +409,7 @@ func seg(lit string) model.Seg { return model.Seg{Elems: []model.Elem{{Lit: lit}
 func genCase(t *rapid.T) Case {
 	methods := []string{"GET"}
 	if rapid.IntRange(0, 3).Draw(t, "multi") == 0 {
-		methods = []string{"GET", "POST", "*", "get"}
+		methods = []string{"GET", "POST", "*", "get", "PUT", "DELETE", "PATCH", "OPTIONS", "HEAD", "CONNECT", "TRACE", "Post"}
 	}
 	pool := gen.SegPool(t, 5, false)
 	prefix, _ := gen.RouteSet(t, gen.SetOpts{MaxRoutes: 5, Methods: methods, Route: gen.RouteOpts{SegmentPool: pool}})
@@ -586,17 +703,26 @@ func genCase(t *rapid.T) Case {
 		text = d.Source()
 	}
 	c := Case{Prefix: prefix, Op: op, Final: rt.Reg{M: m, R: text}}
+	if op == "routes-list" {
+		// the candidate is declared through Routes(path, list): every item of the
+		// comma list must be a method, blanks around the items aside
+		c.Via = "routes"
+		c.Final.M = []string{"GET,POST", "GET, POST", " PUT ,DELETE", "GET,", ",GET", "GET,,POST", "GET POST", ",", " ", "GET;POST", "GET,FETCH", "get,post", "*", "GET,*"}[rapid.IntRange(0, 13).Draw(t, "rl")]
+	}
+	candMethods, candUnknown, _ := candidateMethods(c)
 	// requests: instances of everything that may be registered
 	all := append([]rt.Reg(nil), prefix...)
-	if model.Accepts(text) && model.ExpandMethod(m) != nil {
+	if model.Accepts(text) && !candUnknown {
 		if v, _ := verdictFor(c); v == model.MustAccept {
-			all = append(all, c.Final)
+			for _, cm := range candMethods {
+				all = append(all, rt.Reg{M: cm, R: text})
+			}
 		}
 	}
 	c.Reqs = gen.Requests(t, all, 10)
-	if dd, ok := model.ParseRef(text); ok && model.ExpandMethod(m) != nil {
+	if dd, ok := model.ParseRef(text); ok && candMethods != nil {
 		if _, err := model.Compile(dd, 0); err == nil {
-			mm := model.ExpandMethod(m)
+			mm := candMethods
 			c.Reqs = append(c.Reqs, rt.Req{M: mm[0], P: "/" + strings.Join(gen.Instance(t, dd, false), "/")})
 			if dd.Segs[len(dd.Segs)-1].Optional {
 				c.Reqs = append(c.Reqs, rt.Req{M: mm[len(mm)-1], P: "/" + strings.Join(gen.Instance(t, dd, true), "/")})
@@ -610,6 +736,48 @@ func genCase(t *rapid.T) Case {
 		c.Reqs = append(c.Reqs, rt.Req{M: mm, P: "/" + strings.Join(gen.Instance(t, dd, false), "/")})
 		if dd.Segs[len(dd.Segs)-1].Optional {
 			c.Reqs = append(c.Reqs, rt.Req{M: mm, P: "/" + strings.Join(gen.Instance(t, dd, true), "/")})
+		}
+	}
+	// registrations made afterwards: fresh routes that conflict neither with
+	// the prefix nor with the candidate (so that nothing a rejected candidate
+	// may have left behind in some method trees matters)
+	if rapid.IntRange(0, 2).Draw(t, "after") > 0 {
+		g := model.NewRegistrar()
+		for _, p := range prefix {
+			for _, pm := range model.ExpandMethod(p.M) {
+				g.Add(pm, rt.Deriv(p.R))
+			}
+		}
+		withCand := model.NewRegistrar()
+		for _, p := range prefix {
+			for _, pm := range model.ExpandMethod(p.M) {
+				withCand.Add(pm, rt.Deriv(p.R))
+			}
+		}
+		if dd, ok := model.ParseRef(text); ok {
+			for _, cm := range model.Methods {
+				withCand.Add(cm, dd)
+			}
+		}
+		for i, k := 0, rapid.IntRange(1, 2).Draw(t, "nafter"); i < k; i++ {
+			ad := fresh()
+			am := []string{"GET", "POST", "PUT"}[rapid.IntRange(0, 2).Draw(t, "am")]
+			v1, _ := g.Check(am, ad)
+			v2, _ := withCand.Check(am, ad)
+			if v1 != model.MustAccept || v2 != model.MustAccept {
+				continue
+			}
+			g.Add(am, ad)
+			withCand.Add(am, ad)
+			c.After = append(c.After, rt.Reg{M: am, R: ad.Source()})
+			c.AfterReqs = append(c.AfterReqs, rt.Req{M: am, P: "/" + strings.Join(gen.Instance(t, ad, false), "/")})
+			if ad.Segs[len(ad.Segs)-1].Optional {
+				c.AfterReqs = append(c.AfterReqs, rt.Req{M: am, P: "/" + strings.Join(gen.Instance(t, ad, true), "/")})
+			}
+		}
+		// the earlier routes must still be there as well
+		for _, p := range prefix {
+			c.AfterReqs = append(c.AfterReqs, rt.Req{M: model.ExpandMethod(p.M)[0], P: "/" + strings.Join(gen.Instance(t, rt.Deriv(p.R), false), "/")})
 		}
 	}
 	return c
